@@ -65,6 +65,7 @@ class AdversarialSource(object):
         self.repeats = 0
         self.by_thread = {}
         self.small = None
+        self.inject = []        # values to hand out next, whatever the mode
 
     def fresh(self):
         while True:
@@ -82,7 +83,11 @@ class AdversarialSource(object):
             return bytes(self.r.getrandbits(8) for _ in range(n))
         maxrep = cfg.get("max_repeat", 6)
         v = None
-        if self.stale_run < maxrep and self.history:
+        if self.inject:
+            v = self.inject.pop(0)
+        if v is not None:
+            pass
+        elif self.stale_run < maxrep and self.history:
             if mode == "lowent":
                 k = cfg.get("k", 4)
                 if self.small is None:
@@ -97,6 +102,17 @@ class AdversarialSource(object):
                 others = [x for t, x in self.last_by_thread.items() if t != tid]
                 if others and self.r.random() < cfg.get("p", 0.7):
                     v = others[self.r.randrange(len(others))]
+            elif mode in ("samelow", "samehigh"):
+                # distinct values that agree in their low (or high) N bits
+                nb = cfg.get("bits", 20)
+                fixed = cfg.get("seed", 0) & ((1 << nb) - 1)
+                for _ in range(8):
+                    rnd = self.r.getrandbits(32 - nb)
+                    val = (rnd << nb) | fixed if mode == "samelow" else (fixed << (32 - nb)) | rnd
+                    cand = val.to_bytes(4, "big")
+                    if cand not in self.returned:
+                        v = cand
+                        break
             elif mode == "replay_old":
                 # hand out, again, values issued long ago (the first few of the process)
                 if len(self.history) > cfg.get("after", 64) and self.r.random() < cfg.get("p", 0.3):
@@ -160,12 +176,15 @@ class C15(Check):
                     ops.append(["hdr_ans", rng.getrandbits(32), rng.getrandbits(32)])
                 elif rng.random() < 0.5:
                     ops.append(["hdr_reuse"])       # explicit header copied from an earlier request
+                elif rng.random() < 0.25:
+                    ops.append(["gc"])              # memory pressure: request objects created so far are collected
                 else:
                     # a construction that FAILS (invalid AVP list): on the explicit-header path it must
                     # leave the identifiers of the request whose header it borrowed alone
                     ops.append([rng.choice(["hdr_reuse_bad", "hdr_reuse_bad", "gen_bad"])])
             threads.append(ops)
-        mode = rng.choice(["honest", "lowent", "constant", "cycle", "echo", "echo", "boundary", "replay_old"])
+        mode = rng.choice(["honest", "lowent", "constant", "cycle", "echo", "echo", "boundary", "replay_old",
+                           "samelow", "samehigh"])
         long_history = (index % 40 == 39)
         very_long = (index % 240 == 119)
         if long_history or very_long:
@@ -175,7 +194,8 @@ class C15(Check):
             mode = "replay_old"
             long_history = True
         src = {"mode": mode, "seed": rng.getrandbits(32), "k": rng.choice([2, 3, 4, 8]),
-               "max_repeat": rng.choice([1, 2, 4, 8, 16]), "p": rng.choice([0.5, 0.8, 1.0])}
+               "max_repeat": rng.choice([1, 2, 4, 8, 16]), "p": rng.choice([0.5, 0.8, 1.0]),
+               "bits": rng.choice([8, 16, 20, 24])}
         if long_history:
             src.update({"after": threads[0][0][1] - 100, "p": 0.9, "max_repeat": 6})
         pol = rng.choice(["sync", "line", "line", "opcode", "opcode"])
@@ -237,6 +257,7 @@ class C15(Check):
         src = AdversarialSource(scn["urandom"], sim)
         world = SimWorld(sim, urandom=src)
         world.install()
+        expect_next = []
         created = []        # (thread, opindex, kind, hbh, e2e, explicit)
         errors = []
         violations = []
@@ -261,6 +282,10 @@ class C15(Check):
                     kind = op[0]
                     explicit = False
                     given = None
+                    if kind == "gc":
+                        import gc
+                        gc.collect()
+                        continue
                     if kind == "bulk":
                         for _ in range(op[1]):
                             m = DiameterRequest()
@@ -315,6 +340,19 @@ class C15(Check):
                         explicit = True
                     else:
                         raise ValueError(kind)
+                    if kind in ("hdr_req", "hdr_ans") and len(scn["threads"]) == 1 and not src.inject:
+                        issued_h = set(c["hbh"] for c in created if c["kind"] in ("gen", "typed"))
+                        issued_e = set(c["e2e"] for c in created if c["kind"] in ("gen", "typed"))
+                        if given[0] not in issued_h and given[1] not in issued_e and given[0] not in src.returned \
+                                and given[1] not in src.returned:
+                            src.inject.extend([given[0], given[1]])
+                            expect_next.append(given)
+                    elif kind in ("gen", "typed") and expect_next:
+                        g = expect_next.pop(0)
+                        if (m.header.hop_by_hop, m.header.end_to_end) != g:
+                            errors.append({"t": tid, "op": oi, "err": "RegistryAltered: identifiers carried by an explicit-header object "
+                                           "were no longer issuable afterwards (offered %s/%s, request got %s/%s)" % (
+                                               g[0].hex(), g[1].hex(), m.header.hop_by_hop.hex(), m.header.end_to_end.hex())})
                     draws = src.by_thread.get(sim.cur.tid, 0) - calls0
                     created.append({"t": tid, "op": oi, "kind": kind, "hbh": m.header.hop_by_hop,
                                     "e2e": m.header.end_to_end, "explicit": explicit,
@@ -370,25 +408,10 @@ class C15(Check):
                     violations.append({"clause": "answer consumed identifiers", "sig": "C15/answer-consumed",
                                        "detail": {"t": c["t"], "op": c["op"], "draws": c["draws"]}})
                     break
-            # registries: exactly one entry per implicit request, nothing else
-            nreq = sum(1 for c in created if c["kind"] in ("gen", "typed"))
-            nreg_h = len(DiameterRequest.hop_by_hop_identifiers) - len(base_hbh)
-            nreg_e = len(DiameterRequest.end_to_end_identifiers) - len(base_e2e)
-            nbad = sum(1 for ops_ in scn["threads"] for o in ops_ if o[0] == "gen_bad")
-            if not unfinished and not errors and not (nreq <= nreg_h <= nreq + nbad and nreq <= nreg_e <= nreq + nbad):
-                violations.append({"clause": "registry altered by objects that must not consume identifiers",
-                                   "sig": "C15/registry-count",
-                                   "detail": {"requests": nreq, "hbh_registry_growth": nreg_h,
-                                              "e2e_registry_growth": nreg_e}})
-            # every issued id must be registered (so that later draws avoid it)
-            if not unfinished:
-                regh = set(DiameterRequest.hop_by_hop_identifiers)
-                rege = set(DiameterRequest.end_to_end_identifiers)
-                for c in created:
-                    if c["kind"] in ("gen", "typed") and (c["hbh"] not in regh or c["e2e"] not in rege):
-                        violations.append({"clause": "issued identifier not recorded", "sig": "C15/not-recorded",
-                                           "detail": {"t": c["t"], "op": c["op"]}})
-                        break
+            # NOTE: earlier versions of this oracle also inspected DiameterRequest.hop_by_hop_identifiers /
+            # end_to_end_identifiers (entry counts, "issued id is recorded").  That ties the verdict to one
+            # bookkeeping structure; the behavioural clauses above (uniqueness under replaying sources and
+            # collected objects, explicit-header ids still issuable, no draws) decide the property instead.
             return None
 
         sim.run_main(main)
